@@ -181,6 +181,10 @@ def run_list_prop(prop, tier, seed, only_kinds=None, harness_variant='std', coll
                 j['samples'] = sample_records(j)
             collect.append((jobs, viols))
             return 0
+        # thorough tier of C03 / C18: a sample of the TLC-generated behaviours is executed under Miri (the interpreter is
+        # the memory monitor: uninitialised reads, out-of-bounds, use after free, leaks of the cache's own allocations)
+        if prop in ('C03', 'C18') and tier == 'thorough' and not os.environ.get('VERIF_NO_MIRI'):
+            viols += miri_tier(prop, jobs, work)
         proofs = None
         if apa_future:
             proofs = [f.result() for f in apa_future]
@@ -191,6 +195,48 @@ def run_list_prop(prop, tier, seed, only_kinds=None, harness_variant='std', coll
         return finish(prop, tier, seed, jobs, viols, t0, work, proofs)
     finally:
         work.cleanup()
+
+
+def miri_tier(prop, jobs, work, tests_per_shard=120, budget_s=900):
+    shards = []
+    seen = set()
+    for j in jobs:
+        if j.get('random_only') or not j.get('tlc') or j['variant'] != ('tracked', 'std'):
+            continue
+        key = (j['kind'], j['inst']['name'])
+        if key in seen:
+            continue
+        seen.add(key)
+        ops, states = vlib.select_states(j['driver'], 24 if prop == 'C03' else 6)
+        if not ops or not states:
+            continue
+        per = max(1, tests_per_shard // max(1, len(ops)))
+        for i in range(0, len(states), per):
+            drv = work.path('miri-%s-%d.drv' % (j['inst']['name'], i))
+            with open(drv, 'w') as f:
+                f.write(json.dumps({'ops': ops}) + '\n')
+                for p in states[i:i + per]:
+                    f.write(json.dumps({'state': p}) + '\n')
+            flags = ['--audit', '--tok', '--drop', '--no-ro'] + (['--faults'] if prop == 'C18' else [])
+            shards.append(('%s-%d' % (j['inst']['name'], i), j['kind'], j['inst']['cfg'], j['inst']['keys'], drv, flags))
+    shards = shards[:56]
+    log('[%s] Miri tier: %d shards' % (prop, len(shards)))
+    res = vlib.miri_runs(shards, work.dir, timeout=budget_s)
+    out = []
+    done = 0
+    for r in res:
+        if r['ub']:
+            out.append(dict(kind=r['tag'].split('-')[0], instance=r['tag'], op={'op': 'miri'}, miri=r['tail'], cfg=None,
+                            driver=open(r['driver']).read()[:20000], record={'ret': 'Miri reported undefined behaviour'}))
+        elif r['rc'] not in (0, 124):
+            raise ToolError('miri run failed (rc=%s): %s' % (r['rc'], r['tail']))
+        if r['stats']:
+            done += r['stats'].get('tests', 0)
+    log('[%s] Miri tier: %d tests executed under Miri, %d with undefined behaviour, %d shards timed out' %
+        (prop, done, len(out), sum(1 for r in res if r['rc'] == 124)))
+    for j in jobs[:1]:
+        j.setdefault('miri', dict(shards=len(shards), tests=done, ub=len(out), flags=vlib.MIRIFLAGS))
+    return out
 
 
 def sample_records(j, n=3):
@@ -251,6 +297,7 @@ def finish(prop, tier, seed, jobs, viols, t0, work, proofs=None):
         samples=samples, exhaustive=(tier is not None),
         instances=[dict(name=j['tag'], kind=j['kind'], tlc=j['tlc'], exec=(j['exec']['stats'] or {}), shards=len(j.get('shards', [])))
                    for j in jobs],
+        miri=[j['miri'] for j in jobs if j.get('miri')],
         events_by_op_and_result=by_kind,
         violations_seen=[dict(kind=d.get('kind'), instance=d.get('instance'), op=d.get('op'), path=d.get('path')) for d in viols[:20]],
     )
@@ -307,11 +354,13 @@ def replay_list(prop, path):
 
 
 # --------------------------------------------------------------------------- C17 (cross-hasher pairs)
-C17_PAIRS = [('std', 'std2', 0), ('std', 'ident', 0), ('std', 'zero', 0), ('std', 'fnv', 0), ('std', 'std', 77)]
+C17_PAIRS_ALL = [('std', 'std2', 0), ('std', 'ident', 0), ('std', 'zero', 0), ('std', 'fnv', 0), ('std', 'std', 77)]
+C17_PAIRS_QUICK = [('std', 'std2', 0), ('std', 'zero', 0), ('std', 'std', 77)]
 
 
 def run_c17(tier, seed, replay=None):
     prop = 'C17'
+    C17_PAIRS = C17_PAIRS_QUICK if tier == 'quick' else C17_PAIRS_ALL
     t0 = time.time()
     work = vlib.Work(prop)
     try:
@@ -400,6 +449,9 @@ def run_c17(tier, seed, replay=None):
         # construction from ordered collections is part of the history too: its order must not depend on a hash map
         import extra
         gj, gv = extra.ctor_grid('std', work, binary, prop='C17')
+        gj['kind'] = 'ctor'
+        for d in gv:
+            d['kind'] = None
         jobs.append(gj)
         viols += gv
         return finish(prop, tier, seed, jobs, viols, t0, work)
